@@ -687,7 +687,7 @@ def rule_cache(prog: Program) -> List[Instance]:
         # KEYNORM: a lossy normalisation in the key (case folding, stripping) merges differently spelled
         # arguments into one entry, so the cached value must be normalised under the same test - otherwise
         # the value (and everything derived from it: str, hash, token) depends on which spelling came first
-        out.extend(_keynorm(fi, kf))
+        out.extend(_keynorm(fi, kf, prog))
 
         # CRS-tagged parameters: the key must distinguish their CRS (the whole object or its .crs),
         # otherwise a hit returns a result computed for a look-alike in another CRS and skips the guard
@@ -789,19 +789,29 @@ def _fold_sites(fn: FuncInfo) -> List[Tuple[str, Set[Tuple[str, Tuple]], ast.AST
             v = n.value
         if v is None:
             continue
-        m = fold_of(v)
-        if m is None:
-            continue
-        out.append((m, _cond_sig(conds_at(cond, n)), n))
+        # `return text, code`: each component of a returned tuple is a value of its own
+        for v_ in (v.elts if isinstance(n, ast.Return) and isinstance(v, ast.Tuple) else [v]):
+            m = fold_of(v_)
+            if m is None:
+                continue
+            out.append((m, _cond_sig(conds_at(cond, n)), n))
     return out
 
 
-def _keynorm(fi: FuncInfo, kf: FuncInfo) -> List[Instance]:
+def _keynorm(fi: FuncInfo, kf: FuncInfo, prog: Optional[Program] = None) -> List[Instance]:
     out: List[Instance] = []
     ksites = [x for x in _fold_sites(kf) if isinstance(x[2], ast.Return)]
     if not ksites:
         return out
     vsites = _fold_sites(fi)
+    own_n = len(vsites)
+    if prog is not None:
+        # the value may be normalised by a private helper the cached function calls
+        seen_h = {fi.qual}
+        for g, _n in prog.closure_nodes(fi):
+            if g.qual not in seen_h:
+                seen_h.add(g.qual)
+                vsites = vsites + _fold_sites(g)
     for m, sig, st in ksites:
         csig = {s_ for s_ in sig if s_[0] not in ("isinstance",)}
         match = [v for v in vsites if v[0] in (m, "*") and {s_ for s_ in v[1] if s_[0] != "isinstance"} == csig]
@@ -810,6 +820,10 @@ def _keynorm(fi: FuncInfo, kf: FuncInfo) -> List[Instance]:
             out.append(Instance("R-CACHE", cid, OK, f"key folds with .{m}() under {sorted(csig) or 'no condition'} and the cached value is folded under the same test", kf.where(st)))
         else:
             have = sorted({tuple(sorted(v[1])) for v in vsites if v[0] in (m, "*")})
+            in_helper_only = any(v[0] in (m, "*") for v in vsites[own_n:]) and not any(v[0] in (m, "*") for v in vsites[:own_n])
+            if in_helper_only:
+                out.append(Instance("R-CACHE", cid, UNDET, f"the cached value is folded with .{m}() inside a private helper, under conditions this clause could not match with the key's ({have})", kf.where(st)))
+                continue
             out.append(Instance("R-CACHE", cid, BAD,
                                 f"the key is folded with .{m}() under {sorted(csig) or 'no condition'} but {fi.name} folds its result only under {have or 'nothing'}: differently spelled arguments share an entry whose value keeps the spelling that came first (history-dependent str/hash/token)", kf.where(st)))
     return out
@@ -905,6 +919,8 @@ def _idpin(prog: Program, fi: FuncInfo, kf: FuncInfo, uses_id: List[ast.Call]) -
                     elts = t.elts if isinstance(t, (ast.Tuple, ast.List)) else [t]
                     for idx, e in enumerate(elts):
                         if isinstance(e, ast.Attribute) and isinstance(e.value, ast.Name) and e.value.id == me and e.attr == attr:
+                            if isinstance(t, (ast.Tuple, ast.List)) and isinstance(v, (ast.Tuple, ast.List)) and len(v.elts) == len(elts):
+                                v = v.elts[idx]  # element-wise tuple assignment: this target receives this element
                             cid = f"{g.qual}#IDPIN:{attr}<-{short(v, 40)}"
                             src_ok = False
                             why = ""
